@@ -13,7 +13,7 @@ import (
 func init() {
 	register(&propDef{
 		id:      "C21",
-		explain: "Structural necessary conditions of 'an https request never travels over a plaintext connection and vice versa': (R1) in HostClient's single request path every path to the transport passes, unconditionally, the comparison of HostClient.IsTLS with the scheme of the request URI obtained through Request.URI() (which forces the lazy parse), taken on its 'equal' outcome - a mismatch returns an error before anything is sent; (R2) Client.Do picks the host-client map with the same boolean it stores as IsTLS in the HostClient it creates, and that boolean is true exactly under the isHTTPS test; unsupported schemes return an error; (R3) dialAddr returns, when asked for TLS and the dialled connection is not already TLS, only the result of tls.Client / the TLS handshake; dialHostHard passes HostClient.IsTLS to it; (R4) PipelineClient hands its IsTLS to every connection client it creates; (R5) when a redirect Location is resolved against the current URL, every re-parse of the URI either parses text rebuilt from the base scheme and host or is followed by a look at the (saved) scheme - so a reference without a scheme keeps https. (R6) a function that copies the relative form of the parsed URI (URI.RequestURI(): no scheme, no host) into the request header does not also mark the URI as not parsed - otherwise the scheme the caller set is forgotten and rebuilt as http. Not decided: LBClient over user-supplied clients, TLS correctness itself.",
+		explain: "Structural necessary conditions of 'an https request never travels over a plaintext connection and vice versa': (R1) in HostClient's single request path every path to the transport passes, unconditionally, the comparison of HostClient.IsTLS with the scheme of the request URI obtained through Request.URI() (which forces the lazy parse), taken on its 'equal' outcome - a mismatch returns an error before anything is sent; (R2) Client.Do picks the host-client map with the same boolean it stores as IsTLS in the HostClient it creates, and that boolean is true exactly under the isHTTPS test; unsupported schemes return an error; (R3) dialAddr returns, when asked for TLS and the dialled connection is not already TLS, only the result of tls.Client / the TLS handshake; dialHostHard passes HostClient.IsTLS to it; (R4) PipelineClient hands its IsTLS to every connection client it creates; (R5) when a redirect Location is resolved against the current URL, every re-parse of the URI either parses text rebuilt from the base scheme and host or is followed by a look at the (saved) scheme - so a reference without a scheme keeps https. (R6) a function that copies the relative form of the parsed URI (URI.RequestURI(): no scheme, no host) into the request header does not also mark the URI as not parsed - otherwise the scheme the caller set is forgotten and rebuilt as http. (E8) the idle-connection list of a HostClient is accessed under connsLock only, and its elements only through a header taken while the lock is held (or after the field was swapped out): a connection struct recycled while still listed would be filled by another HostClient's dial. Not decided: LBClient over user-supplied clients, TLS correctness itself.",
 		run:     runC21,
 	})
 }
@@ -84,6 +84,37 @@ func runC21(p *Prog, r *Report) {
 			x.Run(nil)
 			r.Check("R1", "HostClient: the transport is reached only after IsTLS was compared equal to the request's scheme", bad == 0 && n > 0, p.Pos(tx.Pos()),
 				fmt.Sprintf("%d of %d explored arrivals at the transport call have not passed the comparison of HostClient.IsTLS with URI.isHTTPS() on its 'equal' outcome: an https request could be written to a plaintext connection (or the reverse)", bad, n), wit...)
+			// the comparison reads a parsed URI: a parse error leaves no scheme, which reads as http
+			{
+				parse := p.Func("(*Request).parseURI")
+				tested := false
+				if parse != nil {
+					for _, b := range fn.Blocks {
+						for _, in := range b.Instrs {
+							c, ok := in.(*ssa.Call)
+							if !ok || c.Call.StaticCallee() != parse {
+								continue
+							}
+							// its error result is compared with nil and the comparison dominates the scheme test
+							for _, ref := range *c.Referrers() {
+								bo, ok := ref.(*ssa.BinOp)
+								if !ok || (bo.Op != token.NEQ && bo.Op != token.EQL) {
+									continue
+								}
+								for _, b2 := range fn.Blocks {
+									for _, i2 := range b2.Instrs {
+										if c2, ok := i2.(*ssa.Call); ok && c2.Call.StaticCallee() == fHTTPS && dominatesInstr(bo, i2) {
+											tested = true
+										}
+									}
+								}
+							}
+						}
+					}
+				}
+				r.Check("R1", "HostClient: the request URI's parse error is tested before its scheme is compared", tested, p.Pos(fn.Pos()),
+					"Request.URI() swallows the parse error: an https URL that does not parse (a control character, a leading space) yields an empty scheme, which compares as http - the plaintext client accepts the request and writes it, headers included, in clear text")
+			}
 			r.Check("R1", "HostClient: the scheme compared is that of Request.URI(), which parses the URI first", viaURI, p.Pos(fn.Pos()),
 				"the scheme test reads the cached URI without forcing the lazy parse: for a request whose URI was set but not parsed yet the scheme is stale")
 		}
@@ -397,6 +428,15 @@ func schemeSurvivesResolution(p *Prog, r *Report) {
 	}
 	r.Floor("R5", "re-parses during reference resolution", n, 3)
 	schemeNotForgotten(p, r)
+	// a pooled connection belongs to one HostClient - one host, one scheme. The idle list is guarded by connsLock;
+	// a slice header taken under the lock and walked after it (E8-alias) lets a released connection be closed and its
+	// clientConn recycled while it is still listed, after which another HostClient's dial fills the recycled
+	// struct: the https client then writes to a plaintext connection of another host.
+	checkLockset(p, r, "E8", &lockTable{
+		guards:      map[string]string{"HostClient.conns": "HostClient.connsLock"},
+		heldOnEntry: map[string][]string{},
+		exempt:      map[string]string{},
+	}, nil)
 }
 
 // lowersParsedURI: fn (or a module callee, to the given depth) stores false
